@@ -66,6 +66,22 @@ add("C04", EXPL,
     "horizon is a livelock. All 8 transports, traffic in one and both directions, connect/accept/handshake phases included.",
     "Liveness reduced to deadlock/livelock freedom of finite goals within bound D and horizon 3000 steps. Virtual time. "
     "Environment emulation trusted as in C01.", "DESIGN.md 2/C04")
+add("C08",
+    "stateless fault enumeration inside the explorer: every resource-creating system call inside every XCM API call of 29-35 lifecycle "
+    "scenarios x 7 transports is failed with every plausible errno (quick: every single fault; thorough: additionally every pair for the "
+    "creation-ladder scenarios, plus an ASan/LeakSanitizer pass), with descriptor-table, heap, file, stray-close and abort oracles",
+    "29-35 lifecycle scenarios per transport (server create/close; connect+accept+traffic in three close orders; refused and blocking "
+    "connects; address in use; invalid attributes at server/connect/accept; unreadable certificate; non-blocking connect abandoned while "
+    "resolving/connecting/handshaking; DNS now/fail; chosen local address; dropped accepted connection; server closed with a pending request; "
+    "101 sockets alive at once; control interface on / not a directory / unwritable / with a client attached; fork at API boundaries 1-6 with "
+    "xcm_cleanup in the child). Each execution runs a fault-free warm-up, takes a baseline, then the measured repetition in which the explorer "
+    "fails one (quick) or two (thorough) resource calls with every errno the shim offers. Oracles: /proc/self/fd set back to the baseline, heap "
+    "back to steady state (a difference counts only if re-injection grows it every time), socket and control files gone, no close of a foreign "
+    "descriptor, failure surfaces as NULL/-1+errno and never as abort, the owner's connection survives fork+cleanup. quick 13,335 executions; "
+    "thorough 230,488.",
+    "No malloc-failure injection. TCP is emulated. A one-off allocation cannot be told apart from a cache (hence the re-injection rule). A "
+    "foreign epoll_ctl is observed through its effect only. Known finding: eventfd exhaustion aborts (10 signatures, known_findings.json).",
+    "DESIGN.md 2/C08", category="fault_enumeration")
 add("C09", EXPL.replace("all schedules and environment-deviation patterns up to a deviation bound", "a complete finite configuration matrix (one forked execution per cell, selected by zero-cost choice points), plus every single deviation on a covering subset"),
     "The policy x placement x credential x transport matrix is visited completely: side under test {tls.auth, check_time, check_crl} in {0,1}^3 "
     "(and defaults) x name verification {off, matching, non-matching, no names, DNS hostname in the address} x tls.client natural/reversed x "
